@@ -4,6 +4,7 @@ import (
 	"fmt"
 	"math/big"
 	"sync"
+	"sync/atomic"
 	"time"
 
 	"cosmossdk.io/math"
@@ -52,9 +53,15 @@ func histTwoChain(seed uint64, steps int, spec bool) ([]string, int) {
 			w.opPropose()
 		case x < 76:
 			w.opChallenge()
-		case x < 86:
+		case x < 84:
 			w.tc.L1.L1.NextBlock(2 * time.Second)
 			w.tc.L2.L2.NextBlock(time.Second)
+		case x < 86:
+			// the hook gas limit changes mid-history: with a tiny limit every hook runs out of gas (a contained panic)
+			l2 := w.tc.L2.L2
+			p, _ := l2.K.GetParams(l2.Ctx)
+			p.HookMaxGas = mon.Pick(rr, []uint64{1, 3_000, 20_000, opchildtypes.DefaultHookMaxGas})
+			l2.Deliver(opchildtypes.NewMsgUpdateParams(l2.Authority, &p))
 		case x < 90:
 			// a multi-message transaction relaying several pending deposits at once
 			if len(w.tc.PendingDeposits) >= 2 {
@@ -206,6 +213,44 @@ func histOracle(seed uint64, steps int, spec bool) ([]string, int) {
 	return t.Lines, sensitive
 }
 
+// c18WallAnchor is the wall-clock instant (ns) at which the current group of replicas was started; it is part of the
+// history's specification (identical for all replicas of a group), never of the verdict.
+var c18WallAnchor atomic.Int64
+
+// histOracleClock: oracle updates whose agreed L1 timestamps lie shortly before and after the moment the replicas run.
+// The replicas of a group are started 0.8 s apart, so each of them executes the same messages at a different distance
+// from those timestamps; whatever they answer must not depend on it.
+func histOracleClock(seed uint64, steps int, spec bool) ([]string, int) {
+	rng := mon.NewRand(seed)
+	t := &sim.Transcript{}
+	o := newOracleEnv([]int64{10, 9, 8, 7}, []string{"BTC/USD", "ETH/USD", "ATOM/USD"})
+	o.L2.T = t
+	o.L2.Speculate = spec
+	c := &c15{run: scratchRun()}
+	anchor := c18WallAnchor.Load()
+	var log []string
+	n := 0
+	for _, off := range []time.Duration{-time.Hour, 700 * time.Millisecond, 1500 * time.Millisecond, 2300 * time.Millisecond, 3100 * time.Millisecond, 4 * time.Second, 8 * time.Second, 365 * 24 * time.Hour} {
+		ts := anchor + int64(off)
+		var specs []voteSpec
+		for i := range o.Host {
+			p := map[string]*big.Int{tsPair: big.NewInt(ts)}
+			for k, pair := range o.Pairs[:len(o.Pairs)-1] {
+				p[pair] = big.NewInt(int64(1000*(k+1) + rng.Intn(50)))
+			}
+			specs = append(specs, voteSpec{Val: i, Flag: 2, Prices: p, Sig: sigValid})
+		}
+		c.deliver(o, c15Case{kind: "honest-varied", specs: specs, height: uint64(o.HostHeight) + 1, round: 0, sender: o.Executors[0]}, "4vals", true, &log)
+		t.Add("after update stamped anchor%+v:", off)
+		for _, pair := range o.Pairs {
+			t.Add("PRICE %s %v", pair, o.Prices()[pair])
+		}
+		n++
+	}
+	t.Add("DIGEST %s", sim.Digest(o.L2.Dump()))
+	return t.Lines, n
+}
+
 func histL1World(seed uint64, steps int, spec bool) ([]string, int) {
 	t := &sim.Transcript{}
 	cfg := WorldCfg{Bridges: 4, Steps: steps, Periods: []time.Duration{time.Second, 3 * time.Second, 2 * time.Second, 10 * time.Second}}
@@ -269,7 +314,7 @@ func checkC18(run *mon.Run, rng *mon.Rand, thorough bool) {
 	for _, c := range []string{"C18.replicas_identical", "C18.concurrent_replicas_identical"} {
 		run.Declare(c, 4)
 	}
-	hists := []c18History{{"two-chain", histTwoChain}, {"validators", histValidators}, {"oracle", histOracle}, {"l1-world", histL1World}, {"perm-hook", histPermHook}}
+	hists := []c18History{{"two-chain", histTwoChain}, {"validators", histValidators}, {"oracle", histOracle}, {"l1-world", histL1World}, {"perm-hook", histPermHook}, {"oracle-clock", histOracleClock}}
 	N := pick(thorough, 4, 16)
 	seeds := pick(thorough, 2, 3)
 	steps := pick(thorough, 150, 200)
@@ -279,8 +324,12 @@ func checkC18(run *mon.Run, rng *mon.Rand, thorough bool) {
 			seed := rng.U64()
 			transcripts := make([][]string, N)
 			sens := make([]int, N)
+			c18WallAnchor.Store(time.Now().UnixNano())
 			// first half sequentially
 			for i := 0; i < N/2; i++ {
+				if h.name == "oracle-clock" && i > 0 {
+					time.Sleep(800 * time.Millisecond) // workload spacing only; no verdict depends on it
+				}
 				transcripts[i], sens[i] = h.f(seed, steps, i%2 == 1)
 				run.Evaluations++
 			}
